@@ -81,29 +81,29 @@ func bigLit(n *big.Int) Term {
 
 // Enc owns the declarations of one SMT script (one function / lemma).
 type Enc struct {
-	recInfos map[string]*recInfo // per-encoder cache (one encoder per function under verification; never shared between goroutines)
-	P        *Program
-	decls    []string
-	declared map[string]bool
-	structs  map[string]*structInfo // key: canonical struct string
-	structN  int
-	heapSort map[string]string // heap name → SMT sort
-	strLits  map[string]Term
-	strOrder []string
-	nfresh   int
-	axioms   []string // emitted after decls
+	recInfos  map[string]*recInfo // per-encoder cache (one encoder per function under verification; never shared between goroutines)
+	P         *Program
+	decls     []string
+	declared  map[string]bool
+	structs   map[string]*structInfo // key: canonical struct string
+	structN   int
+	heapSort  map[string]string // heap name → SMT sort
+	strLits   map[string]Term
+	strOrder  []string
+	nfresh    int
+	axioms    []string // emitted after decls
 	ifaceTags map[string]int
-	tagList  []string
-	notes    map[string]bool // abstractions applied (reported)
-	fnIds    map[string]Term
-	globals  map[string]Term
-	bv       bool
-	nbase    int
-	carrs    map[string]string
+	tagList   []string
+	notes     map[string]bool // abstractions applied (reported)
+	fnIds     map[string]Term
+	globals   map[string]Term
+	bv        bool
+	nbase     int
+	carrs     map[string]string
 	lateFacts []string
-	absFloat bool
-	revealed map[string]bool
-	flits    []string
+	absFloat  bool
+	revealed  map[string]bool
+	flits     []string
 }
 
 type structInfo struct {
@@ -544,6 +544,10 @@ type State struct {
 	guard    Term
 	bound    Term // arrays/objects with id < bound and not excluded keep their content
 	exclude  []modEntry
+	// loops: heaps whose only writes inside the loop go to memory allocated inside the loop keep everything that was
+	// allocated before the loop was entered (id < freshBound)
+	freshBound Term
+	oldWrites  map[string]bool
 	// sJoin
 	preds  []*State
 	guards []Term
@@ -589,6 +593,8 @@ func (s *State) get(name string) Term {
 		switch {
 		case name == "alloc" || name == "calls":
 			fv.assumeAtBlk(s.blk, s.guard, app(">=", t, old))
+		case strings.HasPrefix(srt, "(Array Int") && s.freshBound != "" && !s.havocAll && !s.oldWrites[name]:
+			fv.assumeAtBlk(s.blk, s.guard, fmt.Sprintf("(forall ((a Int)) (! (=> (< a %s) (= (select %s a) (select %s a))) :pattern ((select %s a))))", s.freshBound, t, old, t))
 		case strings.HasPrefix(srt, "(Array Int"):
 			conds := []Term{}
 			if s.bound != "" {
